@@ -39,6 +39,12 @@ func c19(w *core.World, r *core.Report) {
 	if c := newSenderCtx(w, r); c != nil {
 		ruleQueueDiscipline(w, r, c)
 	}
+	r.Rule("R19.9", "a transport failure is never turned into a reply: every return on the failure edge of a call in the cluster client carries an error", 1)
+	ruleNoErrorAsReply(w, r, false)
+	r.Rule("R19.10", "a command that cannot be queued poisons the batch: Put records every failure it returns, Exec/Dispatch return the recorded error before sending", 6)
+	ruleBatchPoisoned(w, r)
+	r.Rule("R19.11", "Exec returns only after every per-node worker has finished", 1)
+	ruleExecWaitsForAll(w, r)
 }
 
 func ruleRepliesClassified(w *core.World, r *core.Report) {
@@ -560,4 +566,259 @@ func phiLeaves(v ssa.Value) []ssa.Value {
 	}
 	rec(v)
 	return out
+}
+
+// ---------------------------------------------------------------- R19.9 a transport failure is never turned into a reply
+
+// ruleNoErrorAsReply: in the cluster client, a return reached on the failure
+// edge of a call (err != nil) must carry a non-nil error. Returning
+// (something, nil) there hands the caller a "reply" for a command that was
+// never executed; the replay records the command as applied.
+func ruleNoErrorAsReply(w *core.World, r *core.Report, debug bool) {
+	n := 0
+	for _, f := range w.FuncsIn("pkg/redis/client/cluster") {
+		res := f.Signature.Results()
+		if res.Len() == 0 || res.At(res.Len()-1).Type().String() != "error" || len(f.Blocks) == 0 {
+			continue
+		}
+		last := res.Len() - 1
+		for _, in := range core.Instrs(f) {
+			ret, ok := in.(*ssa.Return)
+			if !ok {
+				continue
+			}
+			// which calls are known to have failed when this return executes?
+			var failed []ssa.Value
+			for _, fct := range core.FactsAt(ret.Block()) {
+				c, ok := core.AsCmp(fct.Cond, fct.Val)
+				if !ok || c.Op != token.NEQ || !core.IsNilConst(c.Y) {
+					continue
+				}
+				if c.X.Type().String() != "error" {
+					continue
+				}
+				failed = append(failed, c.X)
+			}
+			if len(failed) == 0 {
+				continue
+			}
+			n++
+			nilRet := false
+			for _, v := range core.RetVals(ret, last) {
+				if core.IsNilConst(v) {
+					nilRet = true
+				}
+			}
+			cons := "error-as-reply/" + core.FuncName(f)
+			// a nil error on a failure edge is a fallback when the other results come from an
+			// alternative action; it is an error smuggled out as a value when they are built from the error itself
+			smuggled := false
+			if nilRet {
+				for i := 0; i < last; i++ {
+					for _, v := range core.RetVals(ret, i) {
+						for _, e := range failed {
+							if derivesFromValue(v, e, 4) {
+								smuggled = true
+							}
+						}
+					}
+				}
+			}
+			if smuggled {
+				r.Fail(cons, ret.Pos(), "on the failure edge of a call the function returns a nil error and a value built from that very error: the caller takes the text of the failure for the command's reply although the command was not executed")
+			} else if debug {
+				r.OK(cons, ret.Pos(), "")
+			}
+		}
+	}
+	if n == 0 {
+		r.Fail("error-as-reply", token.NoPos, "no failure edge found in the cluster client")
+	} else if !debug {
+		r.OK("error-as-reply/cluster-client", token.NoPos, "%d failure-edge returns, all carry an error", n)
+	}
+}
+
+
+// derivesFromValue: v is e, or is computed from e through conversions,
+// interface boxing, phis and call arguments (formatting an error into a
+// string is a call), up to the given depth.
+func derivesFromValue(v, e ssa.Value, depth int) bool {
+	if v == nil || depth < 0 {
+		return false
+	}
+	v = core.Unwrap(v)
+	if v == core.Unwrap(e) {
+		return true
+	}
+	switch x := v.(type) {
+	case *ssa.MakeInterface:
+		return derivesFromValue(x.X, e, depth-1)
+	case *ssa.Convert:
+		return derivesFromValue(x.X, e, depth-1)
+	case *ssa.ChangeInterface:
+		return derivesFromValue(x.X, e, depth-1)
+	case *ssa.Phi:
+		for _, ed := range x.Edges {
+			if derivesFromValue(ed, e, depth-1) {
+				return true
+			}
+		}
+	case *ssa.Call:
+		for _, a := range x.Call.Args {
+			if els, ok := core.VariadicElems(a); ok {
+				for _, el := range els {
+					if derivesFromValue(el, e, depth-1) {
+						return true
+					}
+				}
+			}
+			if derivesFromValue(a, e, depth-1) {
+				return true
+			}
+		}
+	}
+	return false
+}
+
+// ---------------------------------------------------------------- R19.10 / R19.11 batch-level discipline
+
+// ruleBatchPoisoned: the replay sender does not look at Put's result; it
+// relies on Exec/Dispatch reporting whatever went wrong while the batch was
+// filled. So (a) every failure Put can return must have been recorded in the
+// batcher (joinError), and (b) Exec/Dispatch must return the recorded error
+// before anything is sent.
+func ruleBatchPoisoned(w *core.World, r *core.Report) {
+	isJoin := func(v ssa.Value) bool {
+		c, ok := core.Unwrap(v).(*ssa.Call)
+		return ok && strings.HasSuffix(core.ResolveCall(c).Name, ").joinError")
+	}
+	for _, t := range []string{"Batch", "batch2", "txnBatcher"} {
+		f := fn(w, r, "(*pkg/redis/client/cluster."+t+").Put")
+		if f == nil {
+			continue
+		}
+		bad := ""
+		var pos token.Pos = f.Pos()
+		n := 0
+		for _, in := range core.Instrs(f) {
+			ret, ok := in.(*ssa.Return)
+			if !ok || len(ret.Results) != 1 {
+				continue
+			}
+			for _, v := range core.RetVals(ret, 0) {
+				n++
+				if core.IsNilConst(v) || isJoin(v) || core.IsFieldLoad(core.Unwrap(v), t, "err") {
+					continue
+				}
+				bad, pos = "Put returns an error it has not recorded in the batcher: the sender ignores Put's result, so the command is silently dropped and the rest of the batch is sent and acknowledged", ret.Pos()
+			}
+		}
+		r.Check(bad == "" && n > 0, t+".Put/failure-recorded", pos, "%s", bad)
+	}
+	type sp struct{ typ, method string }
+	for _, s := range []sp{{"Batch", "Exec"}, {"batch2", "Dispatch"}, {"txnBatcher", "Dispatch"}} {
+		f := fn(w, r, "(*pkg/redis/client/cluster."+s.typ+")."+s.method)
+		if f == nil {
+			continue
+		}
+		// every goroutine start / node dispatch / send happens with the recorded error known to be nil
+		n, okAll := 0, true
+		var pos token.Pos = f.Pos()
+		for _, in := range core.Instrs(f) {
+			isEffect := false
+			switch x := in.(type) {
+			case *ssa.Go:
+				isEffect = true
+			case *ssa.Call:
+				nm := core.ResolveCall(x).Name
+				if strings.HasSuffix(nm, ").dispatchToNode") || strings.HasSuffix(nm, ").dispatch") || strings.HasSuffix(nm, ").doBatch") || strings.HasSuffix(nm, ").enqueue") || strings.HasSuffix(nm, ").Submit") {
+					isEffect = true
+				}
+			}
+			if !isEffect {
+				continue
+			}
+			n++
+			clean := false
+			for _, fct := range core.FactsAt(in.Block()) {
+				c, ok := core.AsCmp(fct.Cond, fct.Val)
+				if ok && c.Op == token.EQL && core.IsNilConst(c.Y) && core.IsFieldLoad(core.Unwrap(c.X), s.typ, "err") {
+					clean = true
+				}
+			}
+			if !clean {
+				okAll, pos = false, in.Pos()
+			}
+		}
+		r.Check(okAll && n > 0, s.typ+"."+s.method+"/recorded-error-first", pos, "the batch is sent although an error recorded while it was filled has not been ruled out (effects found: %d)", n)
+	}
+}
+
+// ruleExecWaitsForAll: Batch.Exec runs one worker per node. It may only return
+// after every worker has finished; returning from inside the wait loop lets a
+// worker of the abandoned attempt write after the sender's retry has written
+// newer values for the same keys.
+func ruleExecWaitsForAll(w *core.World, r *core.Report) {
+	f := fn(w, r, "(*pkg/redis/client/cluster.Batch).Exec")
+	if f == nil {
+		return
+	}
+	var recv *ssa.UnOp
+	for _, in := range core.Instrs(f) {
+		if u, ok := in.(*ssa.UnOp); ok && u.Op == token.ARROW {
+			if ld, ok := u.X.(*ssa.UnOp); ok && ld.Op == token.MUL {
+				if fa, ok := ld.X.(*ssa.FieldAddr); ok && core.FieldName(fa) == "done" {
+					recv = u
+				}
+			}
+		}
+	}
+	if recv == nil {
+		r.Fail("Batch.Exec/waits-for-all-workers", f.Pos(), "Exec does not wait for its per-node workers")
+		return
+	}
+	head := core.LoopHeadOf(recv.Block())
+	if head == nil {
+		r.Fail("Batch.Exec/waits-for-all-workers", recv.Pos(), "the wait for the workers is not a loop over all of them")
+		return
+	}
+	inLoop := func(b *ssa.BasicBlock) bool { return head.Dominates(b) && blockReaches(b, head) }
+	bad := false
+	var pos token.Pos = recv.Pos()
+	for _, b := range f.Blocks {
+		if !inLoop(b) || b == head {
+			continue
+		}
+		for _, s := range b.Succs {
+			if !inLoop(s) {
+				bad, pos = true, b.Instrs[len(b.Instrs)-1].Pos()
+			}
+		}
+	}
+	// and the workers are started before the wait
+	started := false
+	for _, in := range core.Instrs(f) {
+		if g, ok := in.(*ssa.Go); ok && strings.HasSuffix(core.ResolveCall(g).Name, ").doBatch") {
+			started = true
+		}
+	}
+	r.Check(!bad && started, "Batch.Exec/waits-for-all-workers", pos, "the wait loop can be left before every worker has signalled completion (an early return on the first failed node): a worker of the abandoned attempt may still be sending when the caller retries, which inverts the order of writes to a key")
+}
+
+func blockReaches(from, to *ssa.BasicBlock) bool {
+	seen := map[*ssa.BasicBlock]bool{}
+	work := append([]*ssa.BasicBlock{}, from.Succs...)
+	for len(work) > 0 {
+		b := work[len(work)-1]
+		work = work[:len(work)-1]
+		if b == to {
+			return true
+		}
+		if seen[b] {
+			continue
+		}
+		seen[b] = true
+		work = append(work, b.Succs...)
+	}
+	return false
 }
